@@ -23,8 +23,8 @@ def script(rnd, nthreads, nops):
         handles = []
         for j in range(2):
             k = kind if kind != "mixed" else rnd.choice(["id", "ticket", "psk"])
-            ver = "T13" if k == "psk" else rnd.choice(["T12", "T12", "T11"])
-            suite = {"T12": rnd.choice(["0xc02f", "0x3c", "0xc027"]), "T11": rnd.choice(["0x2f", "0xc013"]), "T13": "0"}[ver]
+            ver = rnd.choice(["T13", "T13", "T13F"]) if k == "psk" else rnd.choice(["T12", "T12", "T11"])
+            suite = {"T12": rnd.choice(["0xc02f", "0x3c", "0xc027"]), "T11": rnd.choice(["0x2f", "0xc013"]), "T13": "0", "T13F": "0"}[ver]
             handles.append(dict(name="%s%d_%d" % ("T" if k == "ticket" else "H", t, j), mode=k, ver=ver, suite=suite, used=False))
         for i in range(nops):
             h = rnd.choice(handles)
@@ -62,6 +62,21 @@ def run(tier, seed):
     vac = tlcutil.run_tlc("MxConc_MC.tla", "MxConc_MC_vac.cfg", workers=8, timeout=900, tag="mcC20v")
     if not vac["violation"]:
         raise SystemExit("INFRA: vacuity guard NeverBothOutcomes was not violated")
+    # the ticket-callback window (lookup + pin / callback without the lock / use + unpin)
+    for cfg in ("MxConc_MC_cb.cfg", "MxConc_MC_cblive.cfg"):
+        r = tlcutil.run_tlc("MxConc_MC.tla", cfg, workers=16, timeout=1500, tag="mcC20cb")
+        viol = r["violation"] or ("Temporal properties were violated" in r["out"])
+        if viol:
+            pth = os.path.join(wd, "model_violation_cb.txt"); open(pth, "w").write(r["out"][-30000:])
+            violations.append(("model", "%s: %s" % (cfg, viol), pth))
+        elif not r["ok"]:
+            print(r["out"][-3000:]); raise SystemExit("INFRA: TLC failed on MxConc (%s)" % cfg)
+        states += r.get("states", 0); trans += r.get("transitions", 0)
+    for cfg, what in (("MxConc_MC_flagpin.cfg", "a pin that is a flag instead of a count must let a key be deleted under a second resumption (NoUseOfDeletedKey)"),
+                      ("MxConc_MC_cbvac.cfg", "a deletion must be refused somewhere (NeverRefused)")):
+        g = tlcutil.run_tlc("MxConc_MC.tla", cfg, workers=8, timeout=900, tag="mcC20g")
+        if not g["violation"]:
+            raise SystemExit("INFRA: sensitivity / vacuity guard failed: " + what)
     nruns = 24 if tier == "quick" else 300
     jobs = []
     for i in range(nruns):
@@ -82,6 +97,22 @@ def run(tier, seed):
         i = len(jobs); sp = os.path.join(wd, "t%03d.txt" % i)
         open(sp, "w").write("\n".join(L) + "\n")
         jobs.append((i, sp, os.path.join(wd, "t%03d.nd" % i), 1 + extra))
+    # a session ticket callback on the shared key set: resumptions of several threads inside their callbacks (no library lock held)
+    # while another thread deletes and reloads the very keys they have found
+    for j in range(3 if tier == "quick" else 24):
+        nres = rnd.choice([2, 3, 4])
+        L = ["0 ticketcb %d" % rnd.choice([200, 400, 800])]
+        for t in range(nres):
+            L.append("%d conn TA%d T12 0xc02f full" % (t, t))
+            L += ["%d conn TA%d T12 %s ticket" % (t, t, "0xc02f")] * rnd.choice([40, 60])
+        L.append("%d keyadd 1" % nres)
+        for _ in range(60):
+            a, b = rnd.choice([500, 1000, 2000, 3000]), rnd.choice([500, 1000, 2000])
+            L += ["%d keydel 0" % nres, "%d nap %d" % (nres, a), "%d keyadd 0" % nres, "%d nap %d" % (nres, b),
+                  "%d keydel 1" % nres, "%d nap %d" % (nres, a), "%d keyadd 1" % nres, "%d nap %d" % (nres, b)]
+        i = len(jobs); sp = os.path.join(wd, "t%03d.txt" % i)
+        open(sp, "w").write("\n".join(L) + "\n")
+        jobs.append((i, sp, os.path.join(wd, "t%03d.nd" % i), nres + 1))
     nruns = len(jobs)
     env = dict(os.environ); env["TSAN_OPTIONS"] = "halt_on_error=0 exitcode=66 second_deadlock_stack=1"
     def one(j):
@@ -122,7 +153,10 @@ def run(tier, seed):
             if d["op"] == "conn":
                 stats["connections"] += 1; stats["resumed" if d["ress"] else "not resumed"] += 1
                 distinct.add((d["ver"], d["want"], d["ress"], d["hc"]))
-            elif d["op"] in ("keyadd", "keydel"): stats["key rotations"] += 1
+            elif d["op"] in ("keyadd", "keydel"):
+                stats["key rotations"] += 1
+                if d["op"] == "keydel" and d["rcn"] < 0: stats["key deletions refused (key in use)"] += 1
+            elif d["op"] == "cb": stats["ticket callback invocations"] += 1
             elif d["op"] == "lock": stats["mutex acquisitions"] += 1
     known = runner.load_known(prop); known_hit = {}
     for (kind, fn, fl), n in races.items():
@@ -138,7 +172,7 @@ def run(tier, seed):
         print("VIOLATION property=%s replay=%s" % (prop, rp)); print("  (%s) %s" % (kind, text[:700]))
     cov = {"states": states, "transitions": trans, "traces_validated_against_impl": nvalid,
            "samples": [open(jobs[0][1]).read().splitlines()[:12]], "evaluations": nruns, "distinct_nontrivial": len(distinct),
-           "rule": "evaluation = one multi-threaded run (2-8 threads, 4-9 operations each: full handshakes, resumption by session id / ticket / TLS 1.3 PSK over TLS 1.1-1.3, data both ways, closure, deletion; thread 0 also adds / deletes session ticket keys of the shared key set) under ThreadSanitizer, 6 runs at a time; distinct_nontrivial = distinct (version, wanted mode, resumed?, completed?)",
+           "rule": "evaluation = one multi-threaded run (2-8 threads, 4-9 operations each: full handshakes, resumption by session id / ticket / TLS 1.3 PSK over TLS 1.1-1.3, data both ways, closure, deletion; thread 0 also adds / deletes session ticket keys of the shared key set; TLS 1.3 with ECDHE or ffdhe2048 key shares; runs with a session ticket callback registered, resumptions inside their callbacks while another thread deletes and reloads the keys they found) under ThreadSanitizer, 6 runs at a time; distinct_nontrivial = distinct (version, wanted mode, resumed?, completed?)",
            "observations": dict(stats), "lock_orders_seen": sorted(lockorders), "trace_states_checked": tstates, "known_findings_reported": sorted(known_hit), "exhaustive": False}
     runner.write_evidence(prop, tier, seed, "model_checking", cov, time.time() - t0, len(violations), ASSUME)
     return 1 if violations else 0
